@@ -124,7 +124,7 @@ PROGRAMS = {
 }
 ASYNC_PLANS = {"amove", "aopen"}      # devices whose stop()/pause()/resume() are coroutines that really suspend
 MULTI_RUN_PLANS = {"multi", "multimon", "dupopen"}
-NOT_CONFORMANCE = {"cfg", "cfginb", "cfgdrop", "multimon"}        # use commands RE.tla does not model (yet): monitored only
+NOT_CONFORMANCE = {"multimon"}        # use commands RE.tla does not model (yet): monitored only
 
 BUILTINS = {
     "count": {"builtin": "count", "args": {"dets": ["det"], "num": 2}},
@@ -734,8 +734,47 @@ def get_validation(tier, proj):
         d = OUT / "corpus" / f"val-{tier}-{proj}"
         d.mkdir(parents=True, exist_ok=True)
         rejected, pv, stats, projected = validate_many(traces, proj, d, f"v{proj}")
-        return {"rejected": {str(k): v for k, v in rejected.items()}, "pv": pv, "stats": stats}
+        # binding self-check: corrupted copies of accepted traces (an event dropped, a seq_num changed, two events swapped,
+        # a device call dropped) must every one be rejected -- a trace specification that accepts them binds nothing
+        good = [i for i, t in enumerate(traces) if t and i not in rejected and "|" in c["traces"][i]["id"]]
+        bad_traces, how = [], []
+        for i in good[:: max(1, len(good) // 8)][:8]:
+            for name, tr in corruptions([e for e in traces[i] if e[0] in PROJECTIONS[proj]]):
+                bad_traces.append(tr)
+                how.append(f"{c['traces'][i]['id']}:{name}")
+        brej, _, _, _ = validate_batch(bad_traces, proj, d, "selfcheck") if bad_traces else ({}, None, None, None)
+        accepted = [how[k] for k in range(len(bad_traces)) if k not in brej]
+        return {"rejected": {str(k): v for k, v in rejected.items()}, "pv": pv, "stats": stats,
+                "selfcheck": {"corrupted": len(bad_traces), "rejected": len(brej), "accepted": accepted}}
     return cached(f"val-{tier}-{proj}", build)
+
+
+def corruptions(ev):
+    """corrupted copies of one projected trace: [(name, events)]"""
+    out = []
+    docs = [i for i, e in enumerate(ev) if e[0] == "doc"]
+    evs = [i for i, e in enumerate(ev) if e[0] == "doc" and e[1] == "event"]
+    states = [i for i, e in enumerate(ev) if e[0] == "state"]
+    devs = [i for i, e in enumerate(ev) if e[0] == "dev"]
+    msgs = [i for i, e in enumerate(ev) if e[0] == "msg"]
+    if docs:
+        out.append(("doc-dropped", ev[:docs[0]] + ev[docs[0] + 1:]))
+    if evs:
+        k = evs[-1]
+        out.append(("seq-changed", ev[:k] + [ev[k][:5] + [ev[k][5] + 1, ev[k][6]]] + ev[k + 1:]))
+    if len(states) >= 2:
+        k = states[1]
+        out.append(("state-dropped", ev[:k] + ev[k + 1:]))
+    if devs:
+        k = devs[-1]
+        out.append(("device-call-dropped", ev[:k] + ev[k + 1:]))
+    if len(msgs) >= 3:
+        a, b = msgs[1], msgs[2]
+        sw = list(ev)
+        sw[a], sw[b] = sw[b], sw[a]
+        if sw != ev:
+            out.append(("messages-swapped", sw))
+    return out
 
 
 # ---------------------------------------------------------------------------------------------------------------
@@ -864,6 +903,10 @@ def check_property(ctx, prop, proj="full", extra_rule=""):
     traces = corpus["traces"]
     val = get_validation(tier, "full")
     rejected = {int(k): v for k, v in val["rejected"].items()}
+    sc = val.get("selfcheck", {})
+    if sc.get("accepted") or sc.get("corrupted", 0) < 5:
+        ctx.machinery(f"RETrace binding self-check failed: corrupted traces accepted {sc.get('accepted')} (of {sc.get('corrupted')})")
+    ctx.cov["binding_selfcheck"] = {"corrupted_traces": sc["corrupted"], "rejected": sc["rejected"]}
     mon = get_monitor(tier)
     ctx.cov["states"] += val["stats"]["distinct"] + mon["stats"]["distinct"]
     ctx.cov["transitions"] += val["stats"]["generated"] + mon["stats"]["generated"]
